@@ -162,6 +162,30 @@ func basicOps() []OpDef {
 			}
 			return &Call{Name: "probe.run", Mut: mut, Meta: map[string]interface{}{"probe_steps": steps}, Spec: world.TxnSpec{From: from, To: world.ProbeAddress, Value: Coin(value), Fee: Coin(h.fee(r) % 1000), Type: transaction.TxnTypeSmartContract, Func: "run", Input: in}}
 		}},
+		{Name: "probe.parts", Tags: []string{"core", "probe", "C07", "C02"}, Build: func(h *Hist, r *mon.Rand) *Call {
+			// the real partitions library on the real state context: adds beyond the partition size (packed partitions become their
+			// own cacheable trie nodes), updates and removals of items in packed and last partitions, objects mutated and not saved,
+			// failures after the work
+			from := h.anyWallet(r)
+			list := r.Intn(len(world.ProbePartSizes))
+			n := 1 + r.Intn(6)
+			var steps []world.ProbePartStep
+			id := func() string { return fmt.Sprintf("k%02d", r.Intn(4*world.ProbePartSizes[list]+2)) }
+			for i := 0; i < n; i++ {
+				op := []string{"add", "add", "add", "update", "update", "remove", "get", "exist", "size"}[r.Intn(9)]
+				steps = append(steps, world.ProbePartStep{Op: op, ID: id(), Data: fmt.Sprintf("v%d-%d", h.Round, r.Intn(1000))})
+			}
+			in := world.ProbePartsInput{List: list, Steps: steps, ThenFail: r.Chance(0.3)}
+			in.SkipSave = in.ThenFail && r.Chance(0.5) // a successful call always saves (not saving is a misuse of the library)
+			mut := ""
+			if in.SkipSave {
+				mut = "mutate-without-save"
+			}
+			if in.ThenFail {
+				mut += "+fail-after-work"
+			}
+			return &Call{Name: "probe.parts", Mut: mut, Spec: world.TxnSpec{From: from, To: world.ProbeAddress, Fee: Coin(h.fee(r) % 1000), Type: transaction.TxnTypeSmartContract, Func: "parts", Input: in}}
+		}},
 		{Name: "faucet.pour", Tags: []string{"faucet", "C17"}, Build: func(h *Hist, r *mon.Rand) *Call {
 			from := h.anyWallet(r)
 			v := uint64(0)
